@@ -132,24 +132,37 @@ def dnaShadowed : List Str := ["genomic DNA", "other DNA", "unassigned DNA"].map
 /-- a date-like piece `dd-MMM-yyyy` somewhere in `s` -/
 def hasDate (s : Str) : Bool := (tailsOf s).any fun t => isDate (t.take 11)
 
-/-- class C03-locus-search: the parser looks for molecule type, division and date anywhere in the
-LOCUS line, so a name containing such a token, or a molecule type containing an earlier-listed
-one, shadows the real field -/
+/-- class C03-odd-quote: a qualifier value with an odd number of quotation marks (the writer does
+not double them; since c94d396 the parser takes the next qualifier line for a continuation) -/
+def clsOddQuote (x : Sequence) : Bool :=
+  x.features.any fun f => f.attributes.any fun kv => (kv.2.filter (· == '"')).length % 2 == 1
+
+/-- regression class of the repaired defect C03-locus-search (fix d6becc3): a name containing a
+molecule type / division / date / topology token, or a molecule type containing a shorter one -/
 def clsLocusSearch (x : Sequence) : Bool :=
   let l := x.metadata.locus
   dnaShadowed.contains l.moleculeType
     || (molTypes ++ divisions).any (fun t => isInfix t l.name) || hasDate l.name || topologies.contains l.name
 
-def subKeywords : List Str :=
-  ["ORGANISM", "AUTHORS", "TITLE", "JOURNAL", "PUBMED", "REMARK", "LOCUS", "DEFINITION", "ACCESSION", "VERSION",
-   "KEYWORDS", "SOURCE", "REFERENCE", "FEATURES", "ORIGIN"].map String.toList
+def subKeywords : List Str := ["ORGANISM", "AUTHORS", "TITLE", "JOURNAL", "PUBMED", "REMARK"].map String.toList
 
-/-- class C03-subkeyword-continuation: some continuation line of the written header begins with
-a sub-keyword or keyword as a word (the parser ignores the indentation of sub-keyword lines) -/
-def clsSubKeyword (out : Str) : Bool :=
-  (lines out).any fun l => isCont l && (match tokens (l.drop 12) with | t :: _ => subKeywords.contains t | [] => false)
+def topKeywords : List Str :=
+  ["LOCUS", "DEFINITION", "ACCESSION", "VERSION", "KEYWORDS", "SOURCE", "REFERENCE", "FEATURES", "ORIGIN"].map String.toList
 
-/-- class C03-reference-wrapped: the writer wraps the `REFERENCE` line (number + range longer than
+/-- some continuation line of the written header begins with one of `ws` as a word -/
+def contStartsWith (ws : List Str) (out : Str) : Bool :=
+  (lines out).any fun l => isCont l && (match tokens (l.drop 12) with | t :: _ => ws.contains t | [] => false)
+
+/-- class C03-toplevel-continuation: a continuation line begins with a TOP-LEVEL keyword as a word;
+getReference still tests `topLevelFeatureCheck(first word)` before it looks at the columns, so
+the reference ends there (what remains of C03-subkeyword-continuation after fix 49c2e81) -/
+def clsTopKeyword (out : Str) : Bool := contStartsWith topKeywords out
+
+/-- regression class of the repaired defect C03-subkeyword-continuation (fix 49c2e81): a continuation
+line begins with a sub-keyword as a word -/
+def clsSubKeyword (out : Str) : Bool := contStartsWith subKeywords out
+
+/-- regression class of the repaired defect C03-reference-wrapped (fix bca7ebf): the writer wraps the `REFERENCE` line (number + range longer than
 68 columns); the parser reads only the first line of a `REFERENCE` block -/
 def clsRefWrapped (out : Str) : Bool :=
   let ls := lines out
@@ -208,12 +221,12 @@ def judgeRec (kind : String) (x : Sequence) (tail : List String) : Verdict :=
     let y := (decodeRec yf).map (·.1)
     let diffs := match y with | some y => diffFields x y | none => ["unparsed"]
     let c4 := pst == "ok" && wrst == "same" && (match y with | some y => seqEquiv x y | none => false)
-    let locusOnly := diffs.all fun d => ["locus.moltype", "locus.division", "locus.date", "locus.topology"].contains d
-    let subOnly := diffs.all fun d => ["references", "source", "organism"].contains d
     let kf :=
-      (if rtDom && !c4 && pst == "ok" && clsLocusSearch x && locusOnly then " kf:C03-locus-search" else "")
-      ++ (if rtDom && !c4 && pst == "ok" && clsSubKeyword m && subOnly then " kf:C03-subkeyword-continuation" else "")
-      ++ (if rtDom && !c4 && pst == "ok" && clsRefWrapped m && diffs == ["references"] then " kf:C03-reference-wrapped" else "")
+      (if rtDom && !c4 && pst == "ok" && clsOddQuote x && diffs == ["features"] then " kf:C03-odd-quote" else "")
+      ++ (if rtDom && !c4 && pst == "ok" && clsTopKeyword m && diffs == ["references"] then " kf:C03-toplevel-continuation" else "")
+    -- regression classes of the three repaired defects (evidence only; they are judged like every other case)
+    let reg := (if clsLocusSearch x then "/locus-token" else "") ++ (if clsSubKeyword m then "/keyword-at-line-start" else "")
+      ++ (if clsRefWrapped m then "/reference-wrapped" else "")
     let wraps := (headerLines m).any isCont
     let cached := x.features.any fun f => f.gbkLocationString != []
     let structural := x.features.any fun f => f.gbkLocationString == []
@@ -232,7 +245,7 @@ def judgeRec (kind : String) (x : Sequence) (tail : List String) : Verdict :=
       cls := (if triv then "triv:" else "") ++ kind ++ "/feat" ++ sizeTag x.features.length ++ "/ref" ++ sizeTag x.metadata.references.length
              ++ "/other" ++ sizeTag x.metadata.other.length ++ (if wraps then "/wrap" else "") ++ (if cached then "/cached" else "")
              ++ (if structural then "/structural" else "") ++ (if rtDom then "/rt" else if layoutDom then "/layout-only" else "/out")
-             ++ (if x.sequence.length > 10000 then "/long" else "") ++ kf,
+             ++ (if x.sequence.length > 10000 then "/long" else "") ++ reg ++ kf,
       detail := why }
   | _ => { corr := false, judge := none, cls := kind ++ "/bad-reply", detail := "bad reply" }
 
